@@ -239,6 +239,7 @@ func runItem(c *common.Ctx, shared *common.Result, it workItem, chains []chain, 
 		res.Add("baselines_"+base.Kind, 1)
 	}
 
+	base0 := base
 	seen := map[uint64]struct{}{}
 	minFail := map[string]int{} // origin -> length of the shortest failing chain
 	for ci, ch := range chains {
@@ -249,6 +250,21 @@ func runItem(c *common.Ctx, shared *common.Result, it workItem, chains []chain, 
 		src := t.source(val, ch)
 		got := execute(val, src)
 		res.Add("evaluations", 1)
+		// the baseline of this case: the same program, containers and all,
+		// with the operand read from the plain variable
+		base, baseSrc := base, baseSrc
+		if pro, _ := ch.build(); pro != "" {
+			baseSrc = t.baseline(val, ch)
+			base = execute(val, baseSrc)
+			res.Add("evaluations", 1)
+			if base.Kind == "parse" || base.Kind == "interrupt" {
+				res.Add("baseline_with_prologue_not_comparable", 1)
+				continue
+			}
+			if base.key() != base0.key() {
+				res.Add("prologue_changes_baseline", 1)
+			}
+		}
 		switch got.Kind {
 		case "parse":
 			res.Add("variant_unparsable", 1)
@@ -315,14 +331,16 @@ func coverage(c *common.Ctx, r *common.Result) map[string]interface{} {
 		"failing_cases":                  r.Counts["failing_cases"],
 		"failing_cases_reported_minimal": r.Counts["failing_cases"] - r.Counts["failing_cases_subsumed_by_shorter_chain"],
 		"excluded": map[string]interface{}{
-			"template_value_pairs_not_comparable": r.Counts["template_value_excluded"],
-			"chain_not_a_location":                r.Counts["chain_not_a_location"],
-			"variant_unparsable":                  r.Counts["variant_unparsable"],
-			"interrupted":                         r.Counts["variant_interrupted"] + r.Counts["baseline_interrupted"],
-			"baseline_nondeterministic":           r.SetMembers("nondeterministic_baselines"),
-			"unconfirmed_divergences":             r.SetMembers("nondeterministic_cases"),
-			"unparsable":                          r.SetMembers("unparsable"),
-			"unparsable_baselines":                r.SetMembers("unparsable_baselines"),
+			"template_value_pairs_not_comparable":   r.Counts["template_value_excluded"],
+			"chain_not_a_location":                  r.Counts["chain_not_a_location"],
+			"variant_unparsable":                    r.Counts["variant_unparsable"],
+			"interrupted":                           r.Counts["variant_interrupted"] + r.Counts["baseline_interrupted"],
+			"baseline_with_prologue_not_comparable": r.Counts["baseline_with_prologue_not_comparable"],
+			"prologue_changes_baseline":             r.Counts["prologue_changes_baseline"],
+			"baseline_nondeterministic":             r.SetMembers("nondeterministic_baselines"),
+			"unconfirmed_divergences":               r.SetMembers("nondeterministic_cases"),
+			"unparsable":                            r.SetMembers("unparsable"),
+			"unparsable_baselines":                  r.SetMembers("unparsable_baselines"),
 		},
 	}
 }
@@ -347,7 +365,7 @@ func replay(c *common.Ctx, path string) int {
 		}
 		ch = append(ch, h)
 	}
-	baseSrc, src := t.source(val, nil), t.source(val, ch)
+	baseSrc, src := t.baseline(val, ch), t.source(val, ch)
 	sl := newSlot()
 	defer sl.release()
 	b1, g1 := execute(sl, val, baseSrc), execute(sl, val, src)
